@@ -11,7 +11,9 @@ Vocabulary (Proofs/JobCtlPlan*.lean): `newCalls s s'` = the calls `s'` logged be
 `TimerBy q k t` = a deferred add of key `k` is pending at a deadline `≤ t`; `dueAt s t` = the
 deadline `AddAfter` uses for `t` (at least 1 s after the clock).  Times are nanoseconds.
 -/
+import FurikoModel.Generated.Facts
 import FurikoModel.Props.C08
+import FurikoModel.Props.C11
 import FurikoModel.Proofs.JobCtlPlanPass
 
 namespace Furiko.Props.C08Plan
@@ -262,7 +264,7 @@ or — the call having created nothing — the pod CACHE entry of that name cont
 theorem created_or_adopted (s : Sys) (jo : JobObj) (rj rj' : Job) (tasks tasks' : List Task)
     (idx : PIndex) (retry : Int)
     (h : (syncCreateTask s jo rj tasks idx retry).2 = some (rj', tasks')) :
-    tasks' = tasks ∨ ∃ t, tasks' = tasks ++ [t] ∧ ∃ p : PodObj, podTask p = some t ∧
+    tasks' = tasks ∨ ∃ t, tasks' = tasks ++ [t] ∧ ∃ p : PodObj, podTask s.clock p = some t ∧
       p.pod.name = taskName jo.name idx.hash retry ∧ p.ownerUid = some jo.uid ∧
       ((syncCreateTask s jo rj tasks idx retry).1.pods = s.pods ++ [p] ∨
        ((syncCreateTask s jo rj tasks idx retry).1.pods = s.pods ∧
@@ -288,5 +290,122 @@ example :
     r.1.pods.map (·.pod.name) = ["job-b-0", "job-a-1"] ∧
     r.2.map (fun x => x.2.map (·.name)) = some ["job-a-1"] := by
   decide
+
+/-! ### the finish time a pass records for an attempt (F30 repaired)
+
+`earliest_respects_delay` (Props/C08) and `create_only_missing` count the retry delay from the finish time
+RECORDED in the ref.  What is recorded: the time the pod reports (`GetFinishTimestamp`: a container
+termination time, or the DeadlineExceeded computation) when it tells one — `Pod.hasFinishTimestamp` —,
+and otherwise, since the repair of F30, the CLOCK OF THE PASS that reads the pod (before the repair: the
+fallback of `GetFinishTimestamp`, the pod's start / creation time).  `GetTaskRef` of `jobutil` keeps the
+finish time of a ref that is already finished with a final state (fix 6ab84c2), so the value that stays
+recorded is the clock of the FIRST pass that saw the pod finished — not before the instant the pod
+finished, whatever the kubelet reports (history form: `C08Hist.recorded_finish_not_before`). -/
+
+/-- the tie for the repair of F30 (fact regenerated from the source on every run, section
+`jobctl-finish-time` of `harness/cmd/extract/jobctl_finish.go`): `PodTask.GetTaskRef` ends with
+`if t := p.GetFinishTimestamp(); !t.IsZero() { if !p.hasFinishTimestamp() { t = *ktime.Now() }; task.FinishTimestamp = &t }`
+and `hasFinishTimestamp` is "a container termination time, or the condition of the DeadlineExceeded branch
+of `GetFinishTimestamp`" (`Model/Task.lean`: `Pod.hasFinishTimestamp`, `Pod.recordedFinish`).  Reverting
+the repair makes this theorem false. -/
+theorem source_records_observation_time : Facts.taskRefRecordsObservationTime = true := by decide
+
+/-- the model's `Pod.recordedFinish` is that shape -/
+theorem recordedFinish_shape (now : Time) (p : Pod) (fin : Option Time) :
+    p.recordedFinish now fin = (if fin.isSome && !p.hasFinishTimestamp then some now else fin) ∧
+    p.hasFinishTimestamp = ((containerTerminateTime p).isSome ||
+      (p.statusReason == reasonDeadlineExceeded && p.activeDeadlineSeconds.isSome)) := ⟨rfl, rfl⟩
+
+/-- a pod that tells when it finished is read the same at every clock -/
+theorem podTask_eq_of_reported {p : PodObj} (h : p.pod.hasFinishTimestamp = true) (now now' : Time) :
+    podTask now p = podTask now' p := by
+  unfold podTask Pod.task Pod.taskRef
+  cases hf : p.pod.finishTimestamp with
+  | none => rfl
+  | some fin => simp [Pod.recordedFinish, h]
+
+/-- … and so is a pod that is not finished -/
+theorem podTask_eq_of_unfinished {p : PodObj} (h : p.pod.isFinished = false) (now now' : Time) :
+    podTask now p = podTask now' p := by
+  unfold podTask Pod.task Pod.taskRef Pod.finishTimestamp
+  simp [h, Pod.recordedFinish]
+
+/-- `finish_recorded_is_observation`: a finished pod that does not tell when it finished (no container
+termination time, not the DeadlineExceeded case) and carries a start time or a creation timestamp is read
+with finish time = the clock of the reading pass -/
+theorem finish_recorded_is_observation {now : Time} {p : PodObj} {t : Task} (h : podTask now p = some t)
+    (hfin : p.pod.isFinished = true) (hnr : p.pod.hasFinishTimestamp = false)
+    (hst : p.pod.startTime.isSome = true ∨ p.pod.creationTimestamp.isSome = true) :
+    t.ref.finishTimestamp = some now := by
+  have hnr' := hnr
+  unfold Pod.hasFinishTimestamp at hnr'
+  simp only [Bool.or_eq_false_iff] at hnr'
+  obtain ⟨hct, hdl⟩ := hnr'
+  have hctn : containerTerminateTime p.pod = none := by
+    cases hc : containerTerminateTime p.pod with
+    | none => rfl
+    | some x => rw [hc] at hct; cases hct
+  have hfinTs : ∃ fin, p.pod.finishTimestamp = some fin ∧ fin.isSome = true := by
+    unfold Pod.finishTimestamp
+    simp only [hfin, Bool.not_true, Bool.false_eq_true, ↓reduceIte, hctn, hdl]
+    cases hs : p.pod.startTime with
+    | some st => exact ⟨_, rfl, rfl⟩
+    | none =>
+      rcases hst with h1 | h1
+      · rw [hs] at h1; cases h1
+      · exact ⟨_, rfl, h1⟩
+  obtain ⟨fin, hf1, hf2⟩ := hfinTs
+  unfold podTask Pod.task Pod.taskRef at h
+  simp only [hf1, Option.some.injEq] at h
+  subst h
+  simp [Pod.recordedFinish, hf2, hnr]
+
+/-- `first_observation_kept`: what `GetTaskRef` (jobutil) records for a task read with finish time `now`:
+a ref that is already finished with a final state keeps ITS finish time, any other ref (and a task
+recorded for the first time) gets `now` -/
+theorem first_observation_kept (ex : TaskRef) (t : Task) (now : Time) (hf : t.ref.finishTimestamp = some now) :
+    (getTaskRef (some ex) t).finishTimestamp =
+      (if ex.finishTimestamp.isSome && isFinalTaskState ex.status.state then ex.finishTimestamp else some now) ∧
+    (getTaskRef none t).finishTimestamp = some now := by
+  refine ⟨?_, ?_⟩
+  · have := (Furiko.Props.C11.getTaskRef_retains ex t).2.1
+    rw [this, hf]; rfl
+  · unfold getTaskRef
+    simp [hf]
+
+/-- the finish times `GenerateTaskRefs` records at clock `now`: for every generated ref a finish time
+that was recorded before under that name, the one its task is read with, or `now` (a lost ref) -/
+theorem generated_finish_sources (now : Time) (existing : List TaskRef) (tasks : List Task) :
+    ∀ r ∈ generateTaskRefs now existing tasks, ∀ f, r.finishTimestamp = some f →
+      (∃ ex ∈ existing, ex.finishTimestamp = some f) ∨ (∃ t ∈ tasks, t.ref.finishTimestamp = some f) ∨ f = now := by
+  intro r hr f hf
+  unfold generateTaskRefs at hr
+  simp only at hr
+  rw [Furiko.StatusLemmas.mem_sortTaskRefs] at hr
+  rcases List.mem_append.mp hr with h | h
+  · obtain ⟨t, ht, rfl⟩ := List.mem_map.mp h
+    cases hl : lookupRef existing t.name with
+    | none =>
+      rw [hl] at hf
+      have : (getTaskRef none t).finishTimestamp = t.ref.finishTimestamp := by
+        unfold getTaskRef; simp only; split <;> rfl
+      exact Or.inr (Or.inl ⟨t, ht, by rw [← this]; exact hf⟩)
+    | some ex =>
+      rw [hl] at hf
+      have hex : ex ∈ existing := by
+        unfold lookupRef at hl
+        exact List.mem_reverse.mp (List.mem_of_find?_eq_some hl)
+      rw [(Furiko.Props.C11.getTaskRef_retains ex t).2.1] at hf
+      split at hf
+      · split at hf
+        · exact Or.inl ⟨ex, hex, hf⟩
+        · exact Or.inr (Or.inl ⟨t, ht, hf⟩)
+      · exact Or.inl ⟨ex, hex, hf⟩
+  · obtain ⟨ex, hex, rfl⟩ := List.mem_map.mp h
+    have hex' := (List.mem_filter.mp hex).1
+    rw [(Furiko.Props.C11.lostRef_retains now ex).2.2.1] at hf
+    split at hf
+    · exact Or.inl ⟨ex, hex', hf⟩
+    · exact Or.inr (Or.inr (Option.some.inj hf).symm)
 
 end Furiko.Props.C08Plan
